@@ -31,12 +31,14 @@ type c19Msg struct {
 	TimeNs int64                    `json:"time_ns"`
 	Fields map[string]interface{}   `json:"fields,omitempty"`
 	Points []map[string]interface{} `json:"points,omitempty"` // batch: fields per point
+	ZeroHint bool                   `json:"size_hint_0,omitempty"` // the batch's begin announces 0 points
 }
 
 type c19Scenario struct {
 	Msgs       []c19Msg `json:"messages"`
 	Snapshots  [][]byte `json:"snapshots"` // restore+snapshot round trips issued concurrently
 	Fragment   bool     `json:"fragment_reads"`
+	FastKA     bool     `json:"fast_keepalive,omitempty"` // keepalive every 200 virtual ms and the sender pausing as long between messages: keepalives and data frames meet on the wire
 	DelayMs    int      `json:"delay_ms"`
 	DelayEvery int      `json:"delay_every"`
 	Fault      string   `json:"fault"` // "" | stall | close | eof | corrupt
@@ -96,6 +98,7 @@ func c19Gen(c *Ctx) *c19Scenario {
 			}
 			m.Tags = gt
 			np := g.Intn(5)
+			m.ZeroHint = g.Chance(1, 3)
 			for p := 0; p < np; p++ {
 				m.Points = append(m.Points, c19Fields(c))
 			}
@@ -114,6 +117,7 @@ func c19Gen(c *Ctx) *c19Scenario {
 		sc.Snapshots = append(sc.Snapshots, b)
 	}
 	sc.Fragment = !c.FaultFree || g.Bool()
+	sc.FastKA = g.Chance(1, 3)
 	if g.Chance(1, 3) {
 		sc.DelayMs = []int{1, 20, 50}[g.Intn(3)]
 		sc.DelayEvery = g.Range(3, 9)
@@ -135,7 +139,11 @@ func (m c19Msg) build() edge.Message {
 	for i, f := range m.Points {
 		pts = append(pts, edge.NewBatchPointMessage(models.Fields(simrt.CloneMap(f)), models.Tags(simrt.CloneMap(m.Tags)), time.Unix(0, m.TimeNs-int64(len(m.Points)-i)).UTC()))
 	}
-	begin := edge.NewBeginBatchMessage(m.Name, models.Tags(simrt.CloneMap(m.Tags)), m.ByName, time.Unix(0, m.TimeNs).UTC(), len(pts))
+	hint := len(pts)
+	if m.ZeroHint {
+		hint = 0 // what where(), eval() and the reducers announce
+	}
+	begin := edge.NewBeginBatchMessage(m.Name, models.Tags(simrt.CloneMap(m.Tags)), m.ByName, time.Unix(0, m.TimeNs).UTC(), hint)
 	return edge.NewBufferedBatchMessage(begin, pts, edge.NewEndBatchMessage())
 }
 
@@ -214,6 +222,9 @@ func runC19(c *Ctx) Verdict {
 	cfg.MaxSteps = 4_000_000
 	sc.Config = fmt.Sprintf("%v p=%.2f", cfg.Strategy, cfg.SwitchProb)
 	timeout := 10 * time.Second
+	if sc.FastKA && sc.Fault == "" {
+		timeout = 400 * time.Millisecond
+	}
 	var verdict Verdict
 	var got []string
 	var snapErr string
@@ -266,6 +277,7 @@ func runC19(c *Ctx) Verdict {
 			close(abortedCh)
 			feeder.Wait()
 		}, func() {})
+		started := time.Now()
 		if err := s.Start(); err != nil {
 			verdict = Fail("harness/setup", "server: %v", err)
 			return
@@ -273,7 +285,34 @@ func runC19(c *Ctx) Verdict {
 		benign := sc.Fault == ""
 		// handshake like UDFNode does; a failed handshake ends the node (nothing is fed)
 		handshake := true
-		if _, err := s.Info(); err != nil {
+		// Under an injected fault a handshake request may never be answered while keepalives still flow (the request
+		// itself was damaged and the agent ignored it); Server has no per-request timeout, so the owner gives up
+		// after a while and aborts - that is the harness's decision, not an oracle.
+		call := func(what string, f func() error) error {
+			var err error
+			fin := false
+			go func() { err = f(); fin = true }()
+			if benign {
+				done := simrt.Expect("handshake "+what, 3_000_000, 20*timeout)
+				simrt.Park("c19.handshake", func() bool { return fin })
+				done()
+				return err
+			}
+			deadline := time.Now().Add(20 * timeout)
+			for !fin && time.Now().Before(deadline) {
+				time.Sleep(timeout / 4)
+			}
+			if !fin {
+				simrt.Count("obs.handshake_unanswered_under_fault")
+				s.Abort(fmt.Errorf("owner gave up on the %s request", what))
+				simrt.Park("c19.handshake.abort", func() bool { return fin })
+				if err == nil {
+					err = fmt.Errorf("%s unanswered", what)
+				}
+			}
+			return err
+		}
+		if err := call("Info", func() error { _, e := s.Info(); return e }); err != nil {
 			if benign {
 				verdict = Fail("handshake", "Info: %v", err)
 				return
@@ -281,7 +320,7 @@ func runC19(c *Ctx) Verdict {
 			handshake = false
 		}
 		if handshake {
-			if err := s.Init(nil); err != nil {
+			if err := call("Init", func() error { return s.Init(nil) }); err != nil {
 				if benign {
 					verdict = Fail("handshake", "Init: %v", err)
 					return
@@ -333,6 +372,12 @@ func runC19(c *Ctx) Verdict {
 				case s.In() <- m.build():
 				case <-abortedCh:
 					return
+				}
+				if sc.FastKA && sc.Fault == "" {
+					// sleep until the keepalive ticker's next tick: both wake at the same virtual instant and the
+					// scheduler decides how the keepalive frame and the next data frame meet on the wire
+					iv := timeout / 2
+					time.Sleep(iv - time.Since(started)%iv)
 				}
 			}
 		}()
@@ -447,7 +492,7 @@ func init() {
 	Register(&Prop{
 		ID:  "C19",
 		Run: runC19,
-		Rule: "case = 1-8/20 points or buffered batches (all four field types incl. int64 beyond 2^53 and extreme floats, strings with quotes/commas/newlines/unicode/NUL, empty tag sets, dimension subsets, byName) sent through the real udf.Server to an in-process echo agent built on the real udf/agent over two simulated byte pipes whose reads return seeded fragments and seeded virtual delays, with 0-2 concurrent Restore+Snapshot round trips and keepalives; " +
+		Rule: "case = 1-8/20 points or buffered batches (all four field types incl. int64 beyond 2^53 and extreme floats, strings with quotes/commas/newlines/unicode/NUL, empty tag sets, dimension subsets, byName) sent through the real udf.Server to an in-process echo agent built on the real udf/agent over two simulated byte pipes whose reads return seeded fragments and seeded virtual delays, with 0-2 concurrent Restore+Snapshot round trips and keepalives (every 5s, or every 200ms with the sender pausing as long between messages so that keepalives and data frames meet on the wire); a third of the batches announce size 0; " +
 			"in the faulty configuration one pipe stalls beyond the keepalive timeout, breaks, ends, or has one byte flipped at a seeded offset; non-trivial = every case; distinct = distinct (scenario, interleaving signature) pairs",
 		Real:        []string{"udf.Server (writeData/readData/handleResponse, requests, keepalive, Stop/Abort)", "udf/agent Agent (readLoop/writeLoop/forwardResponses), WriteMessage/ReadMessage framing, protobuf messages", "edge messages, models"},
 		Stub:        []string{"SimPipe: in-simulation byte stream with seeded fragmentation, delay, stall, break, EOF and corruption (replaces the unix socket / process pipes)", "echo handler on the real agent", "UDFNode is not in this check's path (Server driven directly through In()/Out())"},
